@@ -114,10 +114,17 @@ pub fn props_for(sc: &Scenario, f: &Failure) -> Vec<&'static str> {
         // detected after the vector was dropped: the end-of-stream property
         if f.step > sc.steps.len() {
             // a subscriber that may have lagged and ends on a stale replica was also not resynchronised (C06)
+            let mut v = vec!["C08"];
             if sc.cap < 64 && sc.steps.len() >= sc.cap {
-                return vec!["C08", "C06"];
+                v.push("C06");
+            } else {
+                // what a subscriber that never fell behind receives must not depend on when it is polled (C05)
+                v.push("C05");
+                if tags.contains(&"Tx") {
+                    v.push("C07");
+                }
             }
-            return vec!["C08"];
+            return v;
         }
         // C06 speaks about every capacity and every polling pattern; C05 only about subscribers that cannot have lagged
         let mut v = vec!["C06"];
@@ -962,7 +969,7 @@ fn main() {
         let fv: Vec<serde_json::Value> = fails.iter().take(30).map(|f| serde_json::json!({"properties": ["DEPCHECK"], "property": "DEPCHECK", "classification": format!("depcheck/{}", f.contract), "what": "an assumed contract of /verif/prelude disagrees with the real dependency", "step": 0, "expected": f.expected, "observed": f.observed, "known": null, "input": {"kind": "depcheck", "contract": f.contract, "input": f.input}})).collect();
         let j = serde_json::json!({
             "check": "depcheck", "tier": args.tier, "seed": 0,
-            "scope": "every assumed dependency contract of /verif/prelude (imbl::Vector methods incl. the panics, iterator adapters, SmallVec/ArrayVec, tokio broadcast send/recv/lag/close/subscribe, Arc/Weak counts, VecDeque front/back/get/partition_point, the std behaviour behind the rewrites R-OPTCOMB / R-FORMUT / R-ITER) transcribed as an executable predicate and compared with the real crates on all vectors up to length 4 (thorough: 6), capacities {1,2,3,5}, 0..retained+3 messages",
+            "scope": "every assumed dependency contract of /verif/prelude (imbl::Vector methods incl. the panics, iterator adapters, SmallVec/ArrayVec, tokio broadcast send/recv/lag/close/subscribe, Arc/Weak counts, VecDeque front/back/get/partition_point, the std / imbl behaviour behind the rewrites R-OPTCOMB / R-FORMUT / R-ITER / R-RETAIN / R-FMLOOP) transcribed as an executable predicate and compared with the real crates on all vectors up to length 4 (thorough: 6), capacities {1,2,3,5}, 0..retained+3 messages",
             "evaluations": evals, "distinct_nontrivial": contracts,
             "rule": "distinct non-trivial cases = distinct prelude contracts exercised",
             "exhaustive": true, "samples": [], "failures": fv, "elapsed_s": t0.elapsed().as_secs_f64(),
